@@ -671,14 +671,36 @@ func (x *exec) judgeNav(c *pendingCmd, tok string, args []string, failed bool, a
 			x.fail("C31", "nav-target", "nav/entrypoint/wrong-line", "entrypoint put the cursor on line %d, which does not show the entry instruction (entry %#x)", after, x.s.ld.Code.Entrypoint())
 		}
 	default: // find
-		if len(args) != 1 || strings.ContainsAny(args[0], "^$ ") {
-			x.ctx.Probe("find_unjudged_pattern")
+		if len(args) == 0 {
 			return
 		}
-		re, err := regexp.CompilePOSIX(args[0])
+		// the pattern is the words of the line joined by single spaces
+		pattern := strings.Join(args, " ")
+		text := func(k int) string { return modelText(fresh, k) }
+		if len(args) != 1 || strings.ContainsAny(pattern, "^$") {
+			// Patterns with blanks or anchors see the exact layout of a line
+			// (indentation, padding of the instruction column): judged only
+			// when that layout can be measured on the screen and reproduces
+			// every displayed row.
+			exact, ok := x.exactValues(fresh)
+			if !ok {
+				x.ctx.Probe("find_unjudged_pattern")
+				return
+			}
+			x.ctx.Probe("find_layout_sensitive_pattern_judged")
+			text = func(k int) string {
+				if k < 0 || k >= len(exact) {
+					return ""
+				}
+				return exact[k]
+			}
+		}
+		modelTextAt := text
+		re, err := regexp.CompilePOSIX(pattern)
 		if err != nil {
 			return
 		}
+		args = []string{pattern}
 		if strings.Contains(c.out, "No line matching") {
 			if after != before {
 				x.fail("C31", "nav-error-unchanged", "nav/find/nomatch-moved-cursor", "find reported no match but the cursor moved")
@@ -686,8 +708,8 @@ func (x *exec) judgeNav(c *pendingCmd, tok string, args []string, failed bool, a
 			// is there really no match anywhere but the cursor line?
 			for i := 1; i < total; i++ {
 				k := (before + i) % total
-				if re.MatchString(modelText(fresh, k)) {
-					x.fail("C31", "nav-target", "nav/find/missed-match", "find %q from line %d reported no match but line %d (%q) matches", args[0], before, k, modelText(fresh, k))
+				if re.MatchString(modelTextAt(k)) {
+					x.fail("C31", "nav-target", "nav/find/missed-match", "find %q from line %d reported no match but line %d (%q) matches", args[0], before, k, modelTextAt(k))
 					return
 				}
 			}
@@ -697,7 +719,7 @@ func (x *exec) judgeNav(c *pendingCmd, tok string, args []string, failed bool, a
 		want := -1
 		for i := 1; i < total; i++ {
 			k := (before + i) % total
-			if re.MatchString(modelText(fresh, k)) {
+			if re.MatchString(modelTextAt(k)) {
 				want = k
 				break
 			}
@@ -710,6 +732,48 @@ func (x *exec) judgeNav(c *pendingCmd, tok string, args []string, failed bool, a
 			x.fail("C31", "nav-target", "nav/find/wrong-line", "find %q from line %d: cursor is on line %d, the first matching line after the cursor (cyclically, cursor line excluded) is %d", args[0], before, after, want)
 		}
 	}
+}
+
+// exactValues reconstructs the exact text of every listing line from the
+// fresh rendering: instruction lines are indented and their instruction
+// column is padded; both amounts are measured on a displayed instruction row
+// and the reconstruction must reproduce every row the last frame shows.
+func (x *exec) exactValues(fresh []ModelRow) ([]string, bool) {
+	rows := parseListing(x.tr.lastFrame)
+	indent, width := -1, -1
+	for _, r := range rows {
+		if r.No < 0 || r.No >= len(fresh) || fresh[r.No].Kind != "instr" {
+			continue
+		}
+		cut := strings.LastIndex(r.Text, " | ")
+		if cut < 0 {
+			continue
+		}
+		ind := len(r.Text) - len(strings.TrimLeft(r.Text, " "))
+		if ind > cut {
+			continue
+		}
+		indent, width = ind, cut-ind
+		break
+	}
+	if indent < 0 {
+		return nil, false
+	}
+	out := make([]string, len(fresh))
+	for i, r := range fresh {
+		switch r.Kind {
+		case "header":
+			out[i] = fmt.Sprintf("Block %d: 0x%x", r.Block, r.Addr)
+		case "instr":
+			out[i] = strings.Repeat(" ", indent) + fmt.Sprintf("%-*s", width, r.Text) + " | " + r.Bytes
+		}
+	}
+	for _, r := range rows {
+		if r.No < 0 || r.No >= len(out) || out[r.No] != r.Text {
+			return nil, false
+		}
+	}
+	return out, true
 }
 
 func modelText(fresh []ModelRow, i int) string {
